@@ -1011,9 +1011,9 @@ func gen(g *hx.Gen) {
 
 func main() {
 	hx.Main(hx.Prop{
-		Rule:        "m/o case = graph + list of vertex-class partitions (nil included); seq case = one storage/partition pair pushed through 30-60 graphs; non-trivial: for a graph case some run has a non-trivial (class-preserving) automorphism group, for a sequence the sizes go both up and down over at least three different sizes; distinct by case text",
-		Gen:         gen,
-		Exec:        exec,
+		Rule: "m/o case = graph + list of vertex-class partitions (nil included); seq case = one storage/partition pair pushed through 30-60 graphs; non-trivial: for a graph case some run has a non-trivial (class-preserving) automorphism group, for a sequence the sizes go both up and down over at least three different sizes; distinct by case text",
+		Gen:  gen,
+		Exec: exec,
 		// every case runs well under 10 s; a hanging implementation must not eat the run's time budget
 		CaseTimeout: 30 * time.Second,
 		MemMB:       4096,
